@@ -28,7 +28,7 @@ Definition pre (ss : list sv) (o : op) : bool :=
       (i <? length ss) && match sget ss i with SAlloc m l => length l + 1 <=? m | SNone => false end
   | OPopFront i | OPopBack i =>
       (i <? length ss) && match sget ss i with SAlloc _ (_ :: _) => true | _ => false end
-  | OCopyAssign i j | OMoveAssign i j | OCopyCtor i j | OMoveCtor i j => (i <? length ss) && (j <? length ss) && is_alloc (sget ss j)
+  | OCopyAssign i j | OMoveAssign i j | OCopyCtor i j | OMoveCtor i j => (i <? length ss) && (j <? length ss)
   end.
 
 Definition sstep (ss : list sv) (o : op) : list sv * option out :=
@@ -98,6 +98,38 @@ Lemma size_none r : rbegin r = rend r -> size r = 0.
 Proof.
   intros E. unfold size. destruct (cap r) eqn:C; auto. rewrite E.
   replace (rend r + S n - rend r) with (S n) by lia. apply Nat.mod_same. lia.
+Qed.
+
+(** copying an unallocated buffer (no block, capacity 0) yields an unallocated buffer *)
+Lemma copy_construct_from_none src : data src = None -> rbegin src = rend src -> cap src = 0 ->
+  copy_construct src = {| buf := {| max_size := max_size src; cap := 0; data := None; rbegin := 0; rend := 0 |}; bad := false |}.
+Proof.
+  intros Hd E C. unfold copy_construct, copy_construct_with, block, contents. rewrite (size_none _ E), C. reflexivity.
+Qed.
+
+Lemma copy_assign_none_from_none dst src :
+  data dst = None -> rbegin dst = rend dst -> cap dst = 0 ->
+  data src = None -> rbegin src = rend src -> cap src = 0 ->
+  let x := copy_assign dst src in
+  bad x = false /\ data (buf x) = None /\ rbegin (buf x) = rend (buf x) /\ cap (buf x) = 0.
+Proof.
+  intros Hdd Ed Cd Hd E C. unfold copy_assign, copy_assign_with, block, contents.
+  rewrite (size_none _ E). cbn [seq map push_all].
+  rewrite (clear_none _ Hdd Ed). cbn [buf bad orb]. rewrite Cd, C. cbn. auto.
+Qed.
+
+Lemma copy_assign_from_none dst dd dl src :
+  data dst = Some dd -> Inv dst -> Abs dst dl ->
+  data src = None -> rbegin src = rend src -> cap src = 0 ->
+  let x := copy_assign dst src in
+  bad x = false /\ data (buf x) = None /\ rbegin (buf x) = rend (buf x) /\ cap (buf x) = 0.
+Proof.
+  intros Hdd HId HAd Hd E C. unfold copy_assign, copy_assign_with, block, contents.
+  rewrite (size_none _ E). cbn [seq map push_all].
+  destruct (clear_ok dst dd dl Hdd HId HAd) as (B & I1 & A1 & D1 & M1 & C1 & Z1).
+  rewrite B, C. cbn [orb buf bad]. rewrite (empty_all_raw _ I1 Z1). rewrite andb_false_r.
+  assert (cap dst <> 0) as NZ by (unfold Inv in HId; rewrite Hdd in HId; lia).
+  rewrite C1. destruct (cap dst =? 0) eqn:Ec; [apply Nat.eqb_eq in Ec; lia|]. cbn. auto.
 Qed.
 
 Lemma query_ok r v : R r v -> query r = squery v.
@@ -191,8 +223,20 @@ Proof.
       apply Forall2_upd; auto. simpl. repeat split; auto; congruence.
   - (* copy assign *)
     destruct (Nat.eqb_spec i j) as [->|NE]; [repeat split; auto|].
-    pose proof (Hg i Hp) as Ri. pose proof (Hg j H0) as Rj.
-    destruct (sget ss j) as [|mj lj] eqn:Ej; [discriminate|].
+    pose proof (Hg i Hp) as Ri. pose proof (Hg j H) as Rj.
+    destruct (sget ss j) as [|mj lj] eqn:Ej.
+    { (* from an unallocated buffer: the destination becomes unallocated *)
+      destruct Rj as (Hdj & Ej' & Cj).
+      destruct (sget ss i) as [|mi li] eqn:Ei.
+      - destruct Ri as (Hdi & Ei' & Ci).
+        destruct (copy_assign_none_from_none _ _ Hdi Ei' Ci Hdj Ej' Cj) as (B & D1 & E1 & C1).
+        unfold setv; simpl. rewrite B, orb_false_r. split; [reflexivity|split; [|reflexivity]].
+        apply Forall2_upd; auto. simpl. auto.
+      - destruct Ri as (Hdi & HIi & HAi & HMi).
+        destruct (data (getv s i)) as [di|] eqn:Edi; [|congruence].
+        destruct (copy_assign_from_none _ di li _ Edi HIi HAi Hdj Ej' Cj) as (B & D1 & E1 & C1).
+        unfold setv; simpl. rewrite B, orb_false_r. split; [reflexivity|split; [|reflexivity]].
+        apply Forall2_upd; auto. simpl. auto. }
     destruct Rj as (Hdj & HIj & HAj & HMj).
     destruct (data (getv s j)) as [dj|] eqn:Edj; [|congruence].
     destruct (sget ss i) as [|mi li] eqn:Ei.
@@ -208,17 +252,19 @@ Proof.
       apply Forall2_upd; auto. simpl. repeat split; auto; congruence.
   - (* move assign *)
     destruct (Nat.eqb_spec i j) as [->|NE]; [repeat split; auto|].
-    pose proof (Hg i Hp) as Ri. pose proof (Hg j H0) as Rj.
-    destruct (sget ss j) as [|mj lj] eqn:Ej; [discriminate|].
+    pose proof (Hg i Hp) as Ri. pose proof (Hg j H) as Rj.
     assert (bad (fst (move_assign (getv s i) (getv s j))) = false) as B.
     { unfold move_assign; simpl. pose proof (R_destruct _ _ Ri) as Dz. unfold destruct_ring in Dz. exact Dz. }
     unfold move_assign in *. simpl in *. unfold setv; simpl.
     rewrite B. simpl. rewrite !orb_false_r. split; [reflexivity|split; [|reflexivity]].
-    apply Forall2_upd; [apply Forall2_upd; auto|]; simpl; try exact Rj; try (repeat split; reflexivity); try (rewrite Ej; exact Rj).
+    apply Forall2_upd; [apply Forall2_upd; auto|]; simpl; try exact Rj; try (repeat split; reflexivity).
   - (* copy ctor *)
     destruct (Nat.eqb_spec i j) as [->|NE]; [repeat split; auto|].
-    pose proof (Hg i Hp) as Ri. pose proof (Hg j H0) as Rj.
-    destruct (sget ss j) as [|mj lj] eqn:Ej; [discriminate|].
+    pose proof (Hg i Hp) as Ri. pose proof (Hg j H) as Rj.
+    destruct (sget ss j) as [|mj lj] eqn:Ej.
+    { destruct Rj as (Hdj & Ej' & Cj). unfold setv. rewrite (copy_construct_from_none _ Hdj Ej' Cj). simpl.
+      rewrite (R_destruct _ _ Ri). simpl. rewrite ?orb_false_r.
+      split; [reflexivity|split; [|reflexivity]]. apply Forall2_upd; auto. simpl. auto. }
     destruct Rj as (Hdj & HIj & HAj & HMj).
     destruct (data (getv s j)) as [dj|] eqn:Edj; [|congruence].
     destruct (copy_construct_ok _ dj lj Edj HIj HAj) as (B & I1 & A1 & D1 & M1 & C1).
@@ -227,11 +273,10 @@ Proof.
     apply Forall2_upd; auto. simpl. repeat split; auto; congruence.
   - (* move ctor *)
     destruct (Nat.eqb_spec i j) as [->|NE]; [repeat split; auto|].
-    pose proof (Hg i Hp) as Ri. pose proof (Hg j H0) as Rj.
-    destruct (sget ss j) as [|mj lj] eqn:Ej; [discriminate|].
+    pose proof (Hg i Hp) as Ri. pose proof (Hg j H) as Rj.
     unfold setv, move_construct; simpl. rewrite (R_destruct _ _ Ri). simpl. rewrite !orb_false_r.
     split; [reflexivity|split; [|reflexivity]].
-    apply Forall2_upd; [apply Forall2_upd; auto|]; simpl; try exact Rj; try (repeat split; reflexivity); try (rewrite Ej; exact Rj).
+    apply Forall2_upd; [apply Forall2_upd; auto|]; simpl; try exact Rj; try (repeat split; reflexivity).
   - (* query *)
     split; [reflexivity|split; [assumption|]]. f_equal. apply query_ok. apply Hg. assumption.
 Qed.
@@ -305,10 +350,22 @@ Lemma deallocate_shipped_refuted :
   contents (buf (copy_assign (buf (deallocate a0)) c)) = [Some 2].
 Proof. vm_compute. repeat split. Qed.
 
+(** As shipped, a copy of an unallocated buffer obtained a zero-size block ([allocate(0)] returns a non-null pointer), so
+    the copy was no longer unallocated: a later [allocate()] trips its [assert(!data_)] (and leaks the block when
+    assertions are off).  With [capacity_ ? allocate(capacity_) : nullptr] the copy stays unallocated. *)
+Lemma copy_unallocated_shipped_refuted :
+  data (buf (copy_construct_shipped empty_ring)) = Some [] /\
+  bad (allocate (buf (copy_construct_shipped empty_ring)) 3) = true /\
+  bad (allocate (buf (copy_construct empty_ring)) 3) = false /\
+  bad (allocate (buf (copy_assign_shipped (make 3) empty_ring)) 2) = true /\
+  bad (allocate (buf (copy_assign (make 3) empty_ring)) 2) = false.
+Proof. vm_compute. repeat split. Qed.
+
 (** non-vacuity: a wrapping history satisfies [valid] *)
 Example valid_example :
   valid [SNone; SNone; SNone]
     [OAlloc 0 3; OPushBack 0 1; OPushBack 0 2; OPushFront 0 0; OPopBack 0; OPushBack 0 5; OPopFront 0;
      OPushBack 0 6; OQuery 0; OAlloc 1 1; OCopyAssign 1 0; OMoveCtor 2 1; OQuery 2; ODealloc 0; OAlloc 0 1;
-     OPushFront 0 4; OQuery 0; ODealloc 1; OCopyAssign 1 2; OQuery 1; OCopyAssign 2 0; OQuery 2] = true.
+     OPushFront 0 4; OQuery 0; ODealloc 1; OCopyAssign 1 2; OQuery 1; OCopyAssign 2 0; OQuery 2;
+     ODealloc 1; OCopyCtor 2 1; OAlloc 2 2; OPushBack 2 8; OCopyAssign 0 1; OAlloc 0 1; OMoveAssign 1 0; OQuery 1] = true.
 Proof. reflexivity. Qed.
